@@ -640,7 +640,7 @@ def make_cases(ctx, rng):
           v = vs[int(rng.integers(0, len(vs)))]
           cases.append((dict(base=b, feature=f, elem=e, variant=v), render(inject(doc, f, e, v))))
     return cases
-  n_clean, per_feature = 15, 3
+  n_clean, per_feature = 12, 3
   for b in range(n_clean):
     cases.append((dict(base=b, feature=None), render(gen_doc(rng, want=FEATURES if b % 3 == 0 else ()))))
   b = n_clean
@@ -744,7 +744,7 @@ def correspond(ctx):
   t0 = time.time()
   cases = make_cases(ctx, rng)
   reals, lines, idx = [], [], []
-  n_exec, max_exec = 0, ctx.budget(2, 12)
+  n_exec, max_exec = 0, ctx.budget(1, 12)
   for n, (label, xml) in enumerate(cases):
     r = run_real(xml, execute=(label.get('feature') is None and n_exec < max_exec))
     n_exec += bool(r.get('executed'))
